@@ -191,7 +191,11 @@ func (n *DLQHandlerNode) Nack(msg *Message, nackMetadata NackMetadata) error {
 	writeTime := time.Now()
 	err = n.Handler.Write(msg.Ctx, dlqRecord)
 	if err != nil {
-		return err
+		// The DLQ write failed: the record is in neither the destination nor
+		// the DLQ. Recovering would replay the same record into the same broken
+		// DLQ forever, so this must degrade the pipeline (parity with
+		// funnel.DLQ.Nack, which wraps its write failure the same way).
+		return cerrors.FatalError(cerrors.Errorf("DLQ write failed: %w", err))
 	}
 	n.Timer.Update(time.Since(writeTime))
 	n.Histogram.Observe(dlqRecord)
